@@ -315,80 +315,57 @@ def rule_status_table(ctx):
                 and node.value.keys and all(isinstance(k_, ast.Constant) and isinstance(k_.value, int) for k_ in node.value.keys):
             dicts.setdefault(node.targets[0].id, {k_.value: v_ for k_, v_ in zip(node.value.keys, node.value.values)})
 
-    def test_value(t, v):
-        """truth of a test for status == v; None when it does not depend on the status alone"""
-        if isinstance(t, ast.Compare) and len(t.ops) == 1 and isinstance(t.left, ast.Name) and t.left.id == svar:
-            rhs = t.comparators[0]
-            if isinstance(rhs, ast.Constant):
-                if isinstance(t.ops[0], ast.Eq):
-                    return v == rhs.value
-                if isinstance(t.ops[0], ast.NotEq):
-                    return v != rhs.value
-            keys = None
-            if isinstance(rhs, ast.Name) and rhs.id in dicts:
-                keys = set(dicts[rhs.id])
-            elif isinstance(rhs, (ast.Tuple, ast.List, ast.Set)) and all(isinstance(e_, ast.Constant) for e_ in rhs.elts):
-                keys = {e_.value for e_ in rhs.elts}
-            if keys is not None:
-                if isinstance(t.ops[0], ast.In):
-                    return v in keys
-                if isinstance(t.ops[0], ast.NotIn):
-                    return v not in keys
-        if isinstance(t, ast.BoolOp):
-            vals = [test_value(x, v) for x in t.values]
-            if isinstance(t.op, ast.And):
-                return False if any(x is False for x in vals) else (True if all(x is True for x in vals) else None)
-            return True if any(x is True for x in vals) else (False if all(x is False for x in vals) else None)
-        if isinstance(t, ast.UnaryOp) and isinstance(t.op, ast.Not):
-            x = test_value(t.operand, v)
-            return None if x is None else (not x)
-        return None
+    # finite-domain evaluation of the part of integrate() that follows the C call, once per status value: which exception
+    # classes are raised (if-chains, tables at module level or in the function, tuple unpacking, .get())
+    from . import pyeval
+    import copy as _copy
+    consts = {}
+    for node in mod.body:
+        if isinstance(node, ast.Assign) and len(node.targets) == 1 and isinstance(node.targets[0], ast.Name) and isinstance(node.value, ast.Dict):
+            v_ = pyeval._ev(node.value, pyeval.Path({}))
+            if v_ is not pyeval.UNK:
+                consts[node.targets[0].id] = v_
 
-    def raised(stmts, v, env, out, guarded):
-        for st in stmts:
-            if isinstance(st, ast.If):
-                tv = test_value(st.test, v)
-                if tv is True:
-                    raised(st.body, v, env, out, True)
-                elif tv is False:
-                    raised(st.orelse, v, env, out, guarded)
-                else:
-                    raised(st.body, v, env, out, guarded)
-                    raised(st.orelse, v, env, out, guarded)
-            elif isinstance(st, ast.Assign) and isinstance(st.value, ast.Subscript) and isinstance(st.value.value, ast.Name) and st.value.value.id in dicts \
-                    and isinstance(st.value.slice, ast.Name) and st.value.slice.id == svar and v in dicts[st.value.value.id]:
-                val = dicts[st.value.value.id][v]
-                tg = st.targets[0]
-                if isinstance(tg, ast.Tuple) and isinstance(val, ast.Tuple):
-                    for t_, x_ in zip(tg.elts, val.elts):
-                        if isinstance(t_, ast.Name):
-                            env[t_.id] = x_
-                elif isinstance(tg, ast.Name):
-                    env[tg.id] = val
-            elif isinstance(st, ast.Raise) and st.exc is not None and guarded:
-                f_ = st.exc.func if isinstance(st.exc, ast.Call) else st.exc
-                if isinstance(f_, ast.Subscript) and isinstance(f_.value, ast.Name) and f_.value.id in dicts and v in dicts[f_.value.id]:
-                    f_ = dicts[f_.value.id][v]
-                    if isinstance(f_, ast.Tuple):
-                        f_ = f_.elts[0]
-                if isinstance(f_, ast.Name) and f_.id in env:
-                    f_ = env[f_.id]
-                out.append(pyfront._name(f_))
-            elif isinstance(st, (ast.For, ast.While, ast.With, ast.Try)):
-                raised(getattr(st, 'body', []), v, env, out, guarded)
+    class _Pin(ast.NodeTransformer):
+        def __init__(self, value):
+            self.value = value
+
+        def visit_Assign(self, node):
+            if len(node.targets) == 1 and isinstance(node.targets[0], ast.Name) and node.targets[0].id == svar and isinstance(node.value, ast.Call):
+                new_ = ast.Assign(targets=node.targets, value=ast.Constant(value=self.value))
+                return ast.copy_location(new_, node)
+            return node
     table = {}
+    mentioned = set()
+    for node in ast.walk(fn):
+        if isinstance(node, ast.Compare) and isinstance(node.left, ast.Name) and node.left.id == svar:
+            for c_ in node.comparators:
+                if isinstance(c_, ast.Constant) and isinstance(c_.value, int):
+                    mentioned.add(c_.value)
+    for d_ in consts.values():
+        mentioned |= {k_ for k_ in d_ if isinstance(k_, int)}
     for name_, v_ in st.items():
         if v_ <= 0:
             continue
-        out_ = []
-        raised(fn.body, v_, {}, out_, False)
-        handled = any(test_value(x.test, v_) is True for x in ast.walk(fn) if isinstance(x, ast.If))
-        if handled or out_:
-            table[v_] = out_
-    for node in ast.walk(fn):
-        if isinstance(node, ast.Compare) and isinstance(node.left, ast.Name) and node.left.id == svar and isinstance(node.comparators[0], ast.Constant) \
-                and isinstance(node.comparators[0].value, int) and node.comparators[0].value > 0 and node.comparators[0].value not in st.values():
-            table.setdefault(node.comparators[0].value, [])
+        f2 = _Pin(v_).visit(_copy.deepcopy(fn))
+        ast.fix_missing_locations(f2)
+        dom = {k_: [val] for k_, val in consts.items()}
+        raised_ = set()
+        silent_path = False
+        for env_, r_ in pyeval.paths(f2, dom):
+            evs = [e_ for e_ in r_.events if e_[1] == 'raise']
+            if r_.done == 'raise' and evs:
+                w = evs[-1][2]['exc']
+                raised_.add(w[6:] if isinstance(w, str) and w.startswith('class:') else '?')
+            else:
+                silent_path = True
+        if raised_ or v_ in mentioned:
+            table[v_] = sorted(raised_ - {'?'}) + (['?'] if '?' in raised_ else [])
+            if raised_ and silent_path and STATUS_EXC.get(name_) is not None:
+                table[v_] = table[v_] + ['<nothing on some path>']
+    for v_ in mentioned:
+        if v_ > 0 and v_ not in st.values():
+            table.setdefault(v_, [])
     n = 0
     samples = []
     where = 'rebound/simulation.py:%d Simulation.integrate' % fn.lineno
